@@ -163,12 +163,77 @@ Definition cmp_hdrs (mh ih : list val) : list val :=
               if multiset_eqb mv iv then [] else [finding K_DIVERGE (F_HDR ++ name) (VL mv) (VL iv)])
            (dedup (hdr_names mh ++ hdr_names ih)).
 
-Definition cmp_obs (model impl : val) : list val :=
+(* ---- derived fields: what a body did, independent of how it was cut into frames and of how
+   errors are worded. A property lists the coarsest fields its statement constrains (vprops.py). ---- *)
+(* kind of a poll result: 0 pending, 1 clean end, 2 error, 3 panic, 4 data, 5 empty data *)
+Definition res_kind (r : val) : N :=
+  match r with
+  | VN 0 => 0 | VN 1 => 1 | VN 2 => 3
+  | VB [] => 5 | VB _ => 4
+  | _ => 2
+  end.
+Definition poll_res (p : val) : val := match p with VL (r :: _) => r | _ => VN 9 end.
+(* (data before the first terminal event, its kind -- 0 if none was reached --, kinds of the results after it) *)
+Fixpoint split_body (polls : list val) : bytes * N * list N :=
+  match polls with
+  | [] => ([], 0, [])
+  | p :: t =>
+      let r := poll_res p in
+      let k := res_kind r in
+      if (k =? 1) || (k =? 2) || (k =? 3) then ([], k, map (fun q => res_kind (poll_res q)) t)
+      else let '(d, term, after) := split_body t in
+           ((match r with VB b => b | _ => [] end) ++ d, term, after)
+  end.
+Definition status_class (s : val) : val :=
+  match s with
+  | VN n => if n =? 405 then VN 405
+            else if existsb (N.eqb n) [200; 206; 304; 400; 412; 413; 416] then VN 1 else VN 0
+  | _ => VN 0
+  end.
+Definition lower_nospace (b : bytes) : bytes :=
+  flat_map (fun c => if (c =? 32) || (c =? 9) then [] else [if (65 <=? c) && (c <=? 90) then c + 32 else c]) b.
+Definition F_BODY_BYTES := bs "body.bytes"%string.
+Definition F_BODY_LEN := bs "body.len"%string.
+Definition F_BODY_END := bs "body.end"%string.
+Definition F_BODY_PANIC := bs "body.panic"%string.
+Definition F_BODY_AFTER := bs "body.after"%string.
+Definition F_STATUS_CLASS := bs "status.class"%string.
+Definition F_ALLOW := bs "allow"%string.
+Definition F_CALLS405 := bs "calls.405"%string.
+Definition H_ALLOW_ := bs "allow"%string.
+
+(* `mx`: the model's polls run far enough to reach its terminal event whatever the framing *)
+Definition cmp_derived (ms is_ : val) (mh ih : list val) (mx ip : list val) (mc ic : val) : list val :=
+  let '(md, mt, ma) := split_body mx in
+  let '(id, it, ia) := split_body ip in
+  cmp_field F_STATUS_CLASS (status_class ms) (status_class is_)
+  ++ cmp_field F_ALLOW (VL (map (fun v => match v with VB b => VB (lower_nospace b) | _ => v end) (hdr_vals H_ALLOW_ mh)))
+                       (VL (map (fun v => match v with VB b => VB (lower_nospace b) | _ => v end) (hdr_vals H_ALLOW_ ih)))
+  ++ (if val_eqb (status_class ms) (VN 405) then cmp_field F_CALLS405 mc ic else [])
+  ++ cmp_field F_BODY_PANIC (of_bool (mt =? 3)) (of_bool (it =? 3))
+  ++ (if it =? 0 then []          (* the implementation was not polled to its end: the per-poll fields are the comparison *)
+      else cmp_field F_BODY_END (VN mt) (VN it)
+           ++ cmp_field F_BODY_LEN (VN (lenN md)) (VN (lenN id))
+           ++ cmp_field F_BODY_BYTES (VB md) (VB id)
+           ++ cmp_field F_BODY_AFTER (of_list VN (firstn (length ia) ma)) (of_list VN ia)).
+
+Definition cmp_obs (model impl : val) (mx : list val) : list val :=
   match model, impl with
   | VL [ms; VL mh; mh0; me0; VL mp; mc], VL [is_; VL ih; ih0; ie0; VL ip; ic] =>
       cmp_field F_STATUS ms is_
-      ++ cmp_hdrs mh ih
+      ++ (if val_eqb ms is_ then cmp_hdrs mh ih else [])     (* headers of different statuses are not comparable *)
       ++ cmp_field F_HINT0 mh0 ih0 ++ cmp_field F_EOS0 me0 ie0
       ++ firstn 12 (cmp_polls 0 mp ip) ++ cmp_field F_CALLS mc ic
+      ++ cmp_derived ms is_ mh ih mx ip mc ic
   | _, _ => cmp_field F_SHAPE model impl
+  end.
+
+(* the model's body polled until well past its terminal event *)
+Definition model_polls_ext (i : sinput) (impl : val) : list val :=
+  match serve_model fmt_date_eval (lookup_date (i_dates i)) (i_now i) (i_ent i) (i_req i) with
+  | Panic t => []
+  | Ok r =>
+      let (b, _) := body_init (i_streams i) (adapt_plan (rplan r) impl) in
+      let slack := (fold_left (fun a s => a + length s + 2) (i_streams i) 8)%nat in
+      fst (run_polls (i_npolls i + slack) (i_streams i) b)
   end.
